@@ -224,6 +224,25 @@ fn run_history(ops: &[ROp], sched: &[usize], istrings: &[String], replica: usize
             let _ = Slot::fresh();
             let _ = Slot::numeric(900 + k);
             let _ = Slot::named(&format!("other{k}"));
+            // e-graph work of its own (another language, no symbols): classes of several e-nodes are built and merged away
+            // (once per action, i.e. per batch of strings)
+            if k as usize % BATCH == 0 {
+                use crate::sym::Sym;
+                let mut eg = EGraph::<Sym>::default();
+                let small = ["(lam $z (h $z))", "(lam $z (f $z $z))", "(lam $z (g $z $z))", "(lam $z (t $z $z $z))"];
+                let big = ["c", "d", "(lam $z (q $z $z $z $z))", "(lam $z (u (var $z)))", "(lam $z (lam $w (f $z $w)))", "(lam $z (lam $w (g $w $z)))"];
+                let mut join = |eg: &mut EGraph<Sym>, ts: &[&str]| -> AppliedId {
+                    let first = eg.add_expr(RecExpr::parse(ts[0]).unwrap());
+                    for t in &ts[1..] {
+                        let x = eg.add_expr(RecExpr::parse(t).unwrap());
+                        eg.union(&first, &x);
+                    }
+                    first
+                };
+                let x = join(&mut eg, &small);
+                let y = join(&mut eg, &big);
+                eg.union(&x, &y);
+            }
             k += 1;
             tx_ack.send(()).unwrap();
         }
@@ -456,7 +475,7 @@ impl Prop for ReproProp {
                                     b.sort();
                                     let ids_differ = ref_symids.as_ref().map(|r| *r != this_symids).unwrap_or(false);
                                     if a == b && ids_differ {
-                                        out.fail("order-follows-symbol-ids", format!("line order of the transcript follows the numeric ids of interned symbols: [{hs}] {l0} vs {label}"), diff, &[]);
+                                        out.fail("order-follows-symbol-ids", format!("line order of the transcript follows what another thread did (numeric ids of interned symbols or other process-wide state): [{hs}] {l0} vs {label}"), diff, &[]);
                                     } else {
                                         out.fail("transcript-differs", format!("[{hs}] {l0} vs {label}"), diff, &[]);
                                     }
